@@ -83,6 +83,24 @@ def skip_trivia(s, i):
     return i
 
 
+def mask_trivia(s):
+    """s with the content of comments and string/char literals blanked out (same length)"""
+    out = list(s)
+    j, n = 0, len(s)
+    while j < n:
+        k = skip_trivia(s, j)
+        if k != j:
+            keep = s[j:k].startswith("/*R9:")      # generator markers stay visible
+            if not keep:
+                for q in range(j, k):
+                    if out[q] != "\n":
+                        out[q] = " "
+            j = k
+        else:
+            j += 1
+    return "".join(out)
+
+
 def match_close(s, i, open_c="{", close_c="}"):
     """s[i] == open_c; return index of the matching close_c."""
     assert s[i] == open_c, (s[i : i + 20], open_c)
@@ -1007,8 +1025,7 @@ def process_fn(fn, spec, handle, stats, canary):
     # loop invariants
     if name in spec.loops:
         for ordinal, inv in sorted(spec.loops[name].items(), reverse=True):
-            ms = list(re.finditer(r"\b(while|for|loop)\b", body))
-            ms = [m for m in ms if skip_trivia(body, m.start()) == m.start()]
+            ms = list(re.finditer(r"\b(while|for|loop)\b", mask_trivia(body)))
             if not ms:
                 # the body has become straight-line code: no invariant is needed any more
                 stats["dropped_loop_contracts"] = stats.get("dropped_loop_contracts", 0) + 1
